@@ -61,6 +61,7 @@ class Sched:
         self.locks: list[SimLock] = []
         self.on_line = None  # optional callback(task, code, line) for probes / projections
         self.active = False
+        self.force = False  # set by on_line: switch away from the running task at this very point (systematic section exploration)
 
     # ---------------------------------------------------------------- task plumbing
     def add(self, fn) -> Task:
@@ -122,7 +123,13 @@ class Sched:
         if self.step > self.max_steps:
             self.overrun = True
             return
-        if self.replay is not None:
+        if self.force:
+            self.force = False
+            cands = self._runnable(exclude=t)
+            if not cands:
+                return
+            nxt = cands[(self.step + t.idx) % len(cands)] if self.rng is None else cands[self.rng.randrange(len(cands))]
+        elif self.replay is not None:
             to = self._sw.get(self.step)
             if to is None:
                 return
